@@ -418,6 +418,10 @@ func c12Build(u c12Upd) *c12Built {
 		c12FlipBit(&b.finBranch[arg/2], []int{0, 255}[arg%2])
 	case "com-branch":
 		c12FlipBit(&b.nextBranch[arg/2], []int{0, 255}[arg%2])
+	case "fin-branch-zeroed":
+		*b.finBranch = altair.FinalizedRootProofBranch{}
+	case "com-branch-zeroed":
+		*b.nextBranch = altair.SyncCommitteeProofBranch{}
 	case "att:slot", "att:proposer", "att:parent", "att:state", "att:body":
 		hdrField(b.att, class[4:])
 	case "fin:slot", "fin:proposer", "fin:parent", "fin:state", "fin:body":
